@@ -152,6 +152,15 @@ pub struct Builder<'c> {
     pub edit_applied: bool,
     /// nesting depth of variable-length collections (Vec / Map) being built
     coll_depth: usize,
+    /// weave anchors + aliases into Vec items / Map values (an item becomes an alias of an earlier one)
+    pub aliases: bool,
+    /// weave merge keys into struct mappings (`<<: {..}`, `<<: [{..}, {..}]`, `<<: *m`)
+    pub merges: bool,
+    pub aliases_made: usize,
+    pub merges_made: usize,
+    anchor_ctr: usize,
+    /// most recent anchored merge source: (identity of the field list, anchor name, fields it provides)
+    last_merge: Option<(usize, String, Vec<usize>)>,
 }
 
 fn b64(data: &[u8]) -> String {
@@ -189,6 +198,12 @@ impl<'c> Builder<'c> {
             pending_sibling: None,
             edit_applied: false,
             coll_depth: 0,
+            aliases: false,
+            merges: false,
+            aliases_made: 0,
+            merges_made: 0,
+            anchor_ctr: 0,
+            last_merge: None,
         }
     }
 
@@ -286,16 +301,43 @@ impl<'c> Builder<'c> {
 
     /// Items of a sequence-like parent; a `SplitIntoSiblings` edit in an item adds a sibling.
     fn items(&mut self, tys: &mut dyn Iterator<Item = &Ty>, parent: &'static str) -> Vec<Node> {
-        let mut out = Vec::new();
+        let mut out: Vec<Node> = Vec::new();
         for t in tys {
             self.pending_sibling = None;
+            let before = self.edit_applied;
             let n = self.child(t, parent);
+            let touched = self.edit_applied != before || self.pending_sibling.is_some();
+            let n = if parent == "seq-item" && !touched { self.maybe_alias(&mut out.iter_mut().collect::<Vec<_>>(), n) } else { n };
             out.push(n);
             if let Some(s) = self.pending_sibling.take() {
                 out.push(s);
             }
         }
         out
+    }
+
+    /// With `aliases` on: sometimes replace the freshly built node (same type as `earlier`) by an
+    /// alias of one of the earlier nodes, which gets an anchor.
+    fn maybe_alias(&mut self, earlier: &mut [&mut Node], n: Node) -> Node {
+        if !self.aliases || earlier.is_empty() || self.ch.choose(3) != 0 {
+            return n;
+        }
+        let j = self.ch.choose(earlier.len());
+        let target = &mut *earlier[j];
+        let name = match target {
+            Node::Alias(a) => a.clone(),
+            other => match other.anchor() {
+                Some(a) => a.to_string(),
+                None => {
+                    self.anchor_ctr += 1;
+                    let a = format!("a{}", self.anchor_ctr);
+                    *other = other.clone().with_anchor(&a);
+                    a
+                }
+            },
+        };
+        self.aliases_made += 1;
+        Node::alias(&name)
     }
 
     fn container_edits(&self, out: &mut Vec<(Edit, Intent)>) {
@@ -383,7 +425,14 @@ impl<'c> Builder<'c> {
                     } else {
                         self.child(k, "map-key")
                     };
+                    let before = self.edit_applied;
                     let vn = self.child(v, "map-value");
+                    let vn = if self.edit_applied == before {
+                        let mut earlier: Vec<&mut Node> = entries.iter_mut().map(|(_, x): &mut (Node, Node)| x).collect();
+                        self.maybe_alias(&mut earlier, vn)
+                    } else {
+                        vn
+                    };
                     entries.push((kn, vn));
                 }
                 self.coll_depth -= 1;
@@ -458,6 +507,11 @@ impl<'c> Builder<'c> {
         }
         let rot = if n > 1 { self.ch.choose(if self.rich { n } else { 2 }) } else { 0 };
         let key_style = self.str_style();
+        // merge-key plan (all choices up front so that edited rebuilds consume the same tape)
+        let weave = self.merges && n >= 2;
+        let (mmode, mpos, mjunk) = if weave { (self.ch.choose(4), self.ch.choose(3), self.ch.choose(2) == 1) } else { (0, 0, false) };
+        let mask: Vec<bool> = (0..n).map(|_| weave && self.ch.choose(2) == 1).collect();
+        let mut touched = vec![false; n];
         let mut edits = Vec::new();
         self.container_edits(&mut edits);
         for fl in 0..3u8 {
@@ -478,7 +532,9 @@ impl<'c> Builder<'c> {
             if !present[i] {
                 continue;
             }
+            let before = self.edit_applied;
             let v = self.child(&f.fields[i].ty, "field");
+            touched[i] = self.edit_applied != before;
             entries.push((i, Node::styled(FIELD_NAMES[i], key_style), v));
         }
         if !entries.is_empty() {
@@ -505,10 +561,14 @@ impl<'c> Builder<'c> {
                 let at = if entries.is_empty() { 0 } else { (fl as usize) % (entries.len() + 1) };
                 entries.insert(at, (usize::MAX, Node::plain(name), val));
             }
-            Some(Edit::MissingField(i)) => entries.retain(|(j, _, _)| *j != i),
+            Some(Edit::MissingField(i)) => {
+                entries.retain(|(j, _, _)| *j != i);
+                touched[i] = true;
+            }
             Some(Edit::DuplicateField(i)) => {
                 let v = self.child(&f.fields[i].ty, "field");
                 entries.push((i, Node::styled(FIELD_NAMES[i], key_style), v));
+                touched[i] = true;
             }
             Some(e) => {
                 if let Some(n) = self.apply_container_edit(&e, false) {
@@ -517,7 +577,84 @@ impl<'c> Builder<'c> {
             }
             None => {}
         }
+        if weave && mmode != 0 {
+            self.weave_merge(f, &mut entries, &mask, &touched, mmode, mpos, mjunk, key_style);
+        }
         Node::map(entries.into_iter().map(|(_, k, v)| (k, v)).collect())
+    }
+
+    /// Move some of the struct's own entries into a merged mapping (`<<`). By the YAML merge rule
+    /// the resulting mapping has the same fields, so the intended value does not change.
+    #[allow(clippy::too_many_arguments)]
+    fn weave_merge(
+        &mut self,
+        f: &Fields,
+        entries: &mut Vec<(usize, Node, Node)>,
+        mask: &[bool],
+        touched: &[bool],
+        mmode: usize,
+        mpos: usize,
+        mjunk: bool,
+        key_style: Style,
+    ) {
+        let ident = f as *const Fields as usize;
+        let movable = |i: usize| i != usize::MAX && mask[i] && !touched[i];
+        let merge_value: Node;
+        let known = self.last_merge.clone().filter(|(id, _, _)| *id == ident);
+        if let (3, Some((_, name, provided))) = (mmode, &known) {
+            // use an earlier anchored merge source: drop the own entries it provides (where allowed)
+            if provided.iter().any(|i| touched[*i]) {
+                return;
+            }
+            entries.retain(|(i, _, _)| !(provided.contains(i) && movable(*i)));
+            merge_value = Node::alias(name);
+        } else {
+            let mut moved: Vec<(Node, Node)> = Vec::new();
+            let mut moved_idx = Vec::new();
+            let mut k = 0;
+            while k < entries.len() {
+                if movable(entries[k].0) && !moved_idx.contains(&entries[k].0) {
+                    let (i, key, val) = entries.remove(k);
+                    moved_idx.push(i);
+                    moved.push((key, val));
+                } else {
+                    k += 1;
+                }
+            }
+            if mjunk && mmode != 3 {
+                // an entry of the merged mapping that an own entry overrides (never delivered)
+                if let Some((i, _, _)) = entries.iter().find(|(i, _, _)| *i != usize::MAX && !moved_idx.contains(i)) {
+                    let junk = self.fresh_str();
+                    moved.push((Node::styled(FIELD_NAMES[*i], key_style), junk));
+                }
+            }
+            if moved.is_empty() {
+                return;
+            }
+            merge_value = match mmode {
+                2 if moved.len() >= 2 => {
+                    let second = moved.split_off(moved.len() / 2);
+                    // the overridden junk entry may now repeat a key of the other half only if it
+                    // was the last one, which an own entry overrides anyway
+                    Node::seq(vec![Node::map(moved), Node::map(second)])
+                }
+                2 => Node::seq(vec![Node::map(moved)]),
+                3 => {
+                    self.anchor_ctr += 1;
+                    let name = format!("m{}", self.anchor_ctr);
+                    self.last_merge = Some((ident, name.clone(), moved_idx.clone()));
+                    Node::map(moved).with_anchor(&name)
+                }
+                _ => Node::map(moved),
+            };
+        }
+        self.merges_made += 1;
+        let at = match mpos {
+            0 => 0,
+            1 => entries.len() / 2,
+            _ => entries.len(),
+        };
+        entries.insert(at, (usize::MAX, Node::plain("<<"), merge_value));
     }
 
     fn enumeration(&mut self, e: &EnumTy) -> Node {
